@@ -2,3 +2,4 @@ import Driver.Util
 import Driver.Resolve
 import Driver.Sched
 import Driver.Output
+import Driver.Remote
